@@ -494,16 +494,8 @@ def clear_dir(d):
 
 
 def restore(snap, d):
-    """make directory d hold exactly the files of the snapshot (files are overwritten in place: unlink is slow here)"""
-    if not os.path.isdir(d):
-        os.makedirs(d)
-    for fn in os.listdir(d):
-        if fn not in snap:
-            p = os.path.join(d, fn)
-            if os.path.isdir(p) and not os.path.islink(p):
-                shutil.rmtree(p)
-            else:
-                os.unlink(p)
+    """make directory d hold exactly the files of the snapshot"""
+    clear_dir(d)
     for fn, data in snap.items():
         with _real_open(os.path.join(d, fn), "wb") as f:
             f.write(data)
@@ -669,9 +661,9 @@ def run_child(js, run, d, inject=None, names=None, trace_path=None):
                 return orig()
 
             job.get_dump_dict = spy
-            os.read(go_r, 1)
-            evolve_job(job, js, run)
-            code = 0
+            if os.read(go_r, 1) == b"g":  # EOF = the harness went away: do nothing
+                evolve_job(job, js, run)
+                code = 0
         except BaseException:  # noqa
             try:
                 traceback.print_exc()
